@@ -190,6 +190,19 @@ pub fn judge_rs(prop: &str, stream: &str, c: &RsCase, o: &RsOutcome, mode: &str,
                     );
                 }
             }
+            "typeerr" => {
+                let iv = split_outcomes(ivals);
+                let mv = split_outcomes(model_vals);
+                if iv.len() != mv.len() {
+                    push("impl-violates-property", "one outcome per rule", format!("{} outcomes-length {}", prop, c.tag));
+                } else if let Some(j) = (0..iv.len()).find(|j| (iv[*j] == "(err type)") != (mv[*j] == "(err type)")) {
+                    push(
+                        "impl-violates-property",
+                        &format!("an operand of a type the operator does not support is a type error wherever it arises in an expression, and only there (rule #{}: `{}`)", j, c.rules.get(j).map(|e| e.to_string()).unwrap_or_default()),
+                        format!("{} typeerr {}", prop, c.tag),
+                    );
+                }
+            }
             _ => {
                 if ilog != model_log {
                     push("impl-violates-property", "the invocation log must equal the model's", format!("{} log {}", prop, c.tag));
